@@ -111,6 +111,16 @@ static void run(Ctx& c) {
             Table ta = genTable(r, w, P.s[size_t(fa)], cls, false);
             Table tb = r.chance(1, 8) ? ta : genTable(r, w, P.s[size_t(fb)], cls, nz, 0, (rel && r.chance(1, 4)) ? 6 : -1);
             if (nz) for (auto& v : tb) { if (!v.isInf() && (v.k == Val::R ? v.r == 0 : v.i == 0)) v = real ? Val::re(2.5) : Val::in(7); }
+            // EV+ DIVIDE, one case in four: the divisor is 0 exactly at some points where the numerator is +infinity (inf/0 is a
+            // division by zero like any other) and non-zero everywhere else
+            if (op == B_DIVIDE && proto.isEVP() && r.chance(1, 4)) {
+                bool any = false;
+                for (size_t i = 0; i < ta.size(); i++) {
+                    if (ta[i].isInf() && r.chance(1, 2)) { tb[i] = Val::in(0); any = true; }
+                    else if (!tb[i].isInf() && tb[i].i == 0) tb[i] = Val::in(7);
+                }
+                if (any) c.count("divisor_zero_only_under_infinite_numerator");
+            }
             if (op == B_MULTIPLY && !real) {   // keep |a*b| < 2^30
                 for (size_t i = 0; i < ta.size(); i++) if (!ta[i].isInf() && !tb[i].isInf() && std::labs(ta[i].i) > 1 && std::labs(tb[i].i) > 30000) tb[i].i %= 30000;
             }
